@@ -112,6 +112,15 @@ def gen(nps, configs, pairs, syncs, driver='bb'):
     return scripts
 
 
+def masked_logical(s, r):
+    """logical file content with every element the model does not define masked (undefined content is never compared)"""
+    img = cdf.logical(cdf.decode(bytes.fromhex(r.r(0, s.snapline).get('hex', ''))))
+    for v, vd in enumerate(img.get('vars', [])):
+        defined = s.model.vars[v].vals
+        if vd.get('data') is not None: vd['data'] = [x if i in defined else '_' for i, x in enumerate(vd['data'])]
+    return img
+
+
 def main(tier=None):
     ck = Check('C12', 'exploration', tier)
     b = build.build('plain')
@@ -132,7 +141,7 @@ def main(tier=None):
     for s, r in zip(ref, res[len(bb):]):
         for sig, detail in s.judge(r): ck.violation(('reference-run',) + tuple(sig)[1:], s.case.text(), s.case.name + ' (default driver): ' + detail)
         if r.status == 'ok':
-            try: refimg[s.meta['key']] = cdf.logical(cdf.decode(bytes.fromhex(r.r(0, s.snapline).get('hex', ''))))
+            try: refimg[s.meta['key']] = masked_logical(s, r)
             except Exception: pass
     for s, r in zip(bb, res[:len(bb)]):
         ck.cov['evaluations'] += 1
@@ -140,7 +149,7 @@ def main(tier=None):
         for sig, detail in s.judge(r): ck.violation(sig, s.case.text(), s.case.name + ': ' + detail)
         if r.status == 'ok':
             try:
-                img = cdf.logical(cdf.decode(bytes.fromhex(r.r(0, s.snapline).get('hex', ''))))
+                img = masked_logical(s, r)
                 ck.outcomes.add(str(img)[:4000])
                 if s.meta['key'] in refimg and img != refimg[s.meta['key']]:
                     ck.violation(('differs_from_default_driver', 'file', 'logical content'), s.case.text(), s.case.name + ': decoded destination file differs from the same program under the default driver')
